@@ -738,6 +738,17 @@ def oracle(sim: Sim, plan: dict) -> list[dict]:
         elif k in ("hcancel", "hwait_begin", "hwait_end") and d.get("task") in tasks:
             tasks[d["task"]].setdefault(k, []).append(r)
     tspec = {t["tid"]: t for t in _all_tasks(plan)}
+
+    def late_sfx(tid: str) -> str:
+        """Tasks spawned once the teardown of their factory's owner has begun race with the
+        factory's shutdown; on asyncio they can slip into an already exiting task group
+        (known finding, keyed so that exactly this cause is recognised)."""
+        t = tasks.get(tid)
+        if t is None or plan.get("backend") != "asyncio" or t["tf"] not in tfs:
+            return ""
+        be = body_ends.get(tfs[t["tf"]]["ctx"])
+        return "@teardown_spawn" if be is not None and t["begin"][0] > be[0] else ""
+
     for tid, t in tasks.items():
         fid = t["tf"]
         f = tfs.get(fid)
@@ -784,7 +795,7 @@ def oracle(sim: Sim, plan: dict) -> list[dict]:
         if t.get("task_cancelled") and not t.get("hcancel"):
             f_ctx = f["ctx"]
             if not teardown_cancelled(f_ctx) and not teardown_cancelled(root_of(f_ctx)):
-                v("C09.cancel", "foreign_cancel", f"task {tid} observed cancellation although nobody cancelled its handle (teardown must wait, not cancel)")
+                v("C09.cancel", "foreign_cancel" + late_sfx(tid), f"task {tid} observed cancellation although nobody cancelled its handle (teardown must wait, not cancel)")
         if t.get("hcancel") and ts is not None:
             hc = t["hcancel"][0]
             te = t.get("task_end", [None])[0]
@@ -820,9 +831,9 @@ def oracle(sim: Sim, plan: dict) -> list[dict]:
         if unknown:
             v("C09.handles", "unknown", f"all_task_handles() contains unknown handles {unknown}")
         if r[5]["where"] == "final":
-            linger_stale = [n for n in names]
-            if linger_stale:
-                v("C09.handles", "stale_final", f"all_task_handles() of {fid} is {names} long after everything ended")
+            if names:
+                sfx = "@teardown_spawn" if all(late_sfx(n) for n in names) else ""
+                v("C09.handles", "stale_final" + sfx, f"all_task_handles() of {fid} is {names} long after everything ended")
     # owner teardown waits for running tasks
     for fid, f in tfs.items():
         x = exits.get(f["ctx"])
@@ -836,8 +847,7 @@ def oracle(sim: Sim, plan: dict) -> list[dict]:
                 continue
             te = t.get("task_end", [None])[0]
             ts = t.get("task_start", [None])[0]
-            owner_be = body_ends.get(f["ctx"])
-            late = "@teardown_spawn" if owner_be is not None and t["begin"][0] > owner_be[0] else ""
+            late = late_sfx(tid)
             if te is None:
                 if ts is not None or not t.get("hcancel"):
                     v("C09.teardown", "not_awaited" + late, f"owner context {f['ctx']} was left while task {tid} had not finished")
@@ -861,10 +871,7 @@ def oracle(sim: Sim, plan: dict) -> list[dict]:
         else:
             is_first = True
         fs = fspec.get(t["tf"], {})
-        owner_be = body_ends.get(tfs[t["tf"]]["ctx"])
-        # a task spawned once the teardown of the factory's owner has begun races with the
-        # factory's own shutdown (see known findings)
-        late_spawn = "@teardown_spawn" if owner_be is not None and t["begin"][0] > owner_be[0] else ""
+        late_spawn = late_sfx(tid)
         handler = fs.get("handler")
         is_exc = _is_exception_desc(exc)
         calls = handler_calls.get(_h(exc), [])
